@@ -109,6 +109,39 @@ def cmd_check(args) -> int:
     evaluations = 0
     components: Dict[str, Any] = {}
     per_batch = []
+    known_printed = set()
+    # ---- pinned cases of the listed findings: every `finding:` line of this property is shown on the tree under
+    # test by re-executing a stored case (findings/<property>/*.json), whether or not the seeded batches
+    # happen to run into it again
+    pinned_dir = C.VERIF_DIR / "findings" / prop
+    for pf in sorted(pinned_dir.glob("*.json")) if pinned_dir.is_dir() else []:
+        try:
+            pobj = json.loads(pf.read_text())
+        except (OSError, ValueError) as e:
+            harness_errors.append(f"pinned finding {pf.name}: unreadable ({e})")
+            continue
+        kf = known.match(prop, pobj["key"])
+        if kf is None:
+            continue  # no longer listed (repaired): the file is history
+        try:
+            pres = C.fork_call(_replay_one, ({"engine": pobj["engine"], "case": pobj["case"]},), timeout=600.0)
+        except C.HarnessError as e:
+            harness_errors.append(f"pinned finding {pf.name}: {e}")
+            continue
+        pvs = pres.get("violations", [pres["violation"]] if pres.get("violation") else [])
+        stats.inc("pinned_finding_cases_run")
+        if any((x.get("finding_key") or f"{pobj['engine']}:{x['class']}") == pobj["key"] for x in pvs):
+            stats.inc("pinned_finding_cases_reproduced")
+            if pobj["key"] not in known_printed:
+                print(f"KNOWN-FINDING: property={prop} key={pobj['key']} {kf['text']}")
+                known_printed.add(pobj["key"])
+        else:
+            print(f"NOTE pinned case {pf.name} of listed finding {pobj['key']} does not violate on this tree")
+        for x in pvs:
+            # anything else the pinned case shows is judged like any other violation
+            xs = x.get("finding_key") or f"{pobj['engine']}:{x['class']}"
+            if known.match(prop, xs) is None and violates(prop, {"engine": pobj["engine"]}, x):
+                violations.append({"batch": {"engine": pobj["engine"], "label": "pinned", "timeout": 600.0}, "task": {"seed": pobj["case"].get("seed", 0)}, "violation": x, "case": pobj["case"], "log": pres.get("log")})
     for batch in plan["batches"]:
         mod = engine_module(batch["engine"])
         n = max(1, int(batch["n"] * scale))
@@ -158,9 +191,9 @@ def cmd_check(args) -> int:
     # ---- violations: known finding or VIOLATION (minimised, replayable)
     exit_code = C.EXIT_OK
     reported = 0
-    known_printed = set()
     new_violations = 0
     seen_new = set()
+    pin_mode = os.environ.get("VERIF_PIN_FINDINGS") == "1"  # maintenance: store a case for listed findings that have none
     for entry in violations:
         v = entry["violation"]
         sig = v.get("finding_key") or f"{entry['batch']['engine']}:{v['class']}"
@@ -170,6 +203,12 @@ def cmd_check(args) -> int:
                 print(f"KNOWN-FINDING: property={prop} key={sig} {kf['text']}")
                 known_printed.add(sig)
             stats.inc("known_finding_hits")
+            if pin_mode and entry.get("case") is not None:
+                slug = "".join(ch if ch.isalnum() else "-" for ch in sig)[:80]
+                pinned_dir.mkdir(parents=True, exist_ok=True)
+                if not any(pinned_dir.glob(slug + "*.json")):
+                    (pinned_dir / f"{slug}.json").write_text(json.dumps({"key": sig, "engine": entry["batch"]["engine"], "case": entry["case"], "detail": entry["violation"].get("detail", "")[:400]}, indent=1, default=str))
+                    print(f"PINNED {sig} -> findings/{prop}/{slug}.json")
             continue
         new_violations += 1
         dedup = (v["class"], v.get("finding_key"))
